@@ -134,7 +134,11 @@ class BDSKModel(CallableModel):
         optionals['origin_is_root_edge'] = data.get('origin_is_root_edge', False)
         if 'times' in data:
             if isinstance(data['times'], list):
-                optionals['times'] = Parameter(None, torch.tensor(data['times']))
+                # a plain list has no dtype of its own: take that of the rates
+                optionals['times'] = Parameter(
+                    None,
+                    torch.tensor(data['times'], dtype=R.dtype, device=R.device),
+                )
             else:
                 optionals['times'] = process_object(data['times'], dic)
         optionals['survival'] = data.get('survival', True)
